@@ -43,7 +43,11 @@ TC10C == /\ Ev.e = "c10c" /\ ~Ev.panic
                          /\ SetOf(Ev.facts.refs) \subseteq (SetOf(Ev.facts.bound) \cup SetOf(Ev.facts.created))
                          /\ Ev.facts.creates = 1
                          /\ Ev.peer_ok => (SetOf(Ev.facts.bound) = SetOf(Ev.peer_bound) /\ SetOf(Ev.facts.created) = SetOf(Ev.peer_created))
-TNext == l <= Len(TraceLog) /\ (TC10 \/ TC07 \/ TKind \/ TC10Q \/ TC10Lit \/ TC10C) /\ l' = l + 1
+\* the rewrite the Neo4j driver applies to every text before sending it: the text that comes out parses, and apart from
+\* temporal wrappers around properties (datetime(n.p) for n.p) its canonical re-emission equals that of the text that went in
+TC10R == /\ Ev.e = "c10r" /\ ~Ev.panic
+         /\ (Ev.accepted /\ ~Ev.err) => (Ev.reparse_ok /\ Ev.same)
+TNext == l <= Len(TraceLog) /\ (TC10 \/ TC07 \/ TKind \/ TC10Q \/ TC10Lit \/ TC10C \/ TC10R) /\ l' = l + 1
 TSpec == TInit /\ [][TNext]_l
 HW == TLCSet(1, IF l > TLCGet(1) THEN l ELSE TLCGet(1))
 Accepted == IF TLCGet(1) = Len(TraceLog) + 1 THEN TRUE ELSE PrintT(<<"STUCK_AT_LINE", TLCGet(1)>>) /\ FALSE
